@@ -133,21 +133,21 @@ def cell_card(c, deck):
         fill = 'fill=%s %s' % (rng, ' '.join(str(u) for u in c['lunivs']))
         if c['hasftr']:
             fill += ' ' + _tr_inline(c['ftr'], c['ftrspell'], deck)
-            if c['ftrspell'] == 'star':
+            if c['ftrspell'].startswith('star'):
                 fill = '*' + fill
         parts.append(fill)
     elif c['fill']:
         fill = 'fill=%d' % c['fill']
         if c['hasftr']:
             fill += ' ' + _tr_inline(c['ftr'], c['ftrspell'], deck)
-            if c['ftrspell'] == 'star':
+            if c['ftrspell'].startswith('star'):
                 fill = '*' + fill
         parts.append(fill)
     if c['hastrcl'] and c.get('trclnum'):
         parts.append('trcl=%d' % c['trclnum'])
     elif c['hastrcl']:
         kw = 'trcl=' + _tr_inline(c['trcl'], c['trclspell'], deck)
-        if c['trclspell'] == 'star':
+        if c['trclspell'].startswith('star'):
             kw = '*' + kw
         parts.append(kw)
     if c.get('impsrc', 'cell') == 'cell':
@@ -162,6 +162,10 @@ def _tr_inline(tr, spell, deck):
         return '(%d)' % tr_number(deck, tr)
     if spell == 'star':
         return '(' + ' '.join(tr_params_star(tr)) + ')'
+    if spell == 'starm':      # fault injection (C17): m = -1
+        return '(' + ' '.join(tr_params_star(tr)) + ' -1)'
+    if spell == '13m':
+        return '(' + ' '.join(tr_params(tr)) + ' -1)'
     if spell == '3':
         return '(' + ' '.join(tr_params(tr, '3')) + ')'
     if spell == '13':
@@ -213,6 +217,10 @@ def _concretise(deck, title):
             lines.append(wrap_card('*tr%d %s' % (t['n'], ' '.join(tr_params_star(t)))))
         elif sp == '13':
             lines.append(wrap_card('tr%d %s 1' % (t['n'], ' '.join(tr_params(t)))))
+        elif sp == '13m':
+            lines.append(wrap_card('tr%d %s -1' % (t['n'], ' '.join(tr_params(t)))))
+        elif sp == 'starm':
+            lines.append(wrap_card('*tr%d %s -1' % (t['n'], ' '.join(tr_params_star(t)))))
         elif sp.startswith('rows') or sp.startswith('cols'):
             keep = {int(ch) - 1 for ch in sp[4:]}
             ent = []
